@@ -3,19 +3,21 @@
   composed bottom-up, each into its own block) followed by every reader.
 
     C <tree>                        compose, then decompose an exact-size copy of the result
-    A <max_len> <tree> m<hex>*      compose, then `append_bundle` every message in turn
+    Cr <tree>                       the same, every block taken from one arena whose addresses are reused
+                                    (after a decoy composition with other contents at the same addresses)
+    A <max_len> <tree> m<hex>*      compose, then `append_bundle` every message in turn   (Ar: arena)
     P <hex>                         `rtosc_bundle_p` on a plain block
 
   tree tokens (prefix order):  m<hex>                  a message (its bytes, in an exact-size block)
                                B<16 hex tt>:<n>:<cap>  bundle of the next n trees, built into a
                                                        block of <cap> bytes (pre-filled 0xAA)
   Output of C:  r=<ret> b=<bytes> [p=.. n=.. tt=.. len=.. d=<decomposition>] [nz=..]
-    bytes: the `ret` bytes written; after a failed call (ret = 0) the whole block — hex, `z<n>` for
-    n zero bytes, `-` for the empty block
+    bytes: the `ret` bytes written.  After a failed top-level call only `r=0` is printed: what the
+    destination holds then is C02's clause (engine oscbuf), not an observable of C08.
     decomposition:  m<hex>  |  B<tt>[<off>:<size>:<rtosc_message_length>:<decomposition>,…]
   If the model predicts an out-of-bounds store or read the line is the sanitizer's verdict
-  `crash:asan:heap-buffer-overflow`; a loop that does not terminate is `crash:signal:27`
-  (the harness' CPU-time watchdog).
+  `crash:asan:heap-buffer-overflow` (arena ops: `crash:asan:use-after-poison`); a loop that does
+  not terminate is `crash:signal:27` (the harness' CPU-time watchdog).
 -/
 import RtoscModel.Osc.Bundle
 import Driver.Common
@@ -23,6 +25,9 @@ namespace Driver.BundleEngine
 open Rtosc Rtosc.Osc
 
 def crash : String := "crash:asan:heap-buffer-overflow"
+def crashArena : String := "crash:asan:use-after-poison"
+/-- more elements than any literal call site of the harness passes -/
+def maxKids : Nat := 40
 def hang : String := "crash:signal:27"
 
 inductive Tree where
@@ -40,7 +45,7 @@ partial def parseTree : List String → Option (Tree × List String)
       | [tth, ns, caps] =>
         match ofHex tth, ns.toNat?, caps.toNat? with
         | some tb, some n, some cap =>
-          if tb.length ≠ 8 ∨ n > 8 then none
+          if tb.length ≠ 8 ∨ n > maxKids then none
           else
             let rec kids (k : Nat) (toks : List String) (acc : List Tree) : Option (List Tree × List String) :=
               match k with
@@ -128,12 +133,19 @@ def render : Except Fail String → String
   | .error .oob => crash
   | .error .hang => hang
 
-def stepC (toks : List String) : String :=
+def renderIn (arena : Bool) (r : Except Fail String) : String :=
+  match r with
+  | .ok s => s
+  | .error .oob => if arena then crashArena else crash
+  | .error .hang => hang
+
+def stepC (arena : Bool) (toks : List String) : String :=
   match parseTree toks with
-  | some (.bundle tt cap kids, []) => render do
+  | some (.bundle tt cap kids, []) => renderIn arena do
     let (buf, ret) ← build (.bundle tt cap kids)
     if ret > cap then return s!"r={ret} ret-exceeds-len"
-    let head := s!"r={ret} b={if ret = 0 then hexz buf else toHex (buf.take ret)}"
+    if ret = 0 then return "r=0"
+    let head := s!"r={ret} b={toHex (buf.take ret)}"
     if ret ≥ 16 then
       let r ← readers buf ret
       if cap ≥ ret + 4 then
@@ -143,12 +155,12 @@ def stepC (toks : List String) : String :=
     else return head
   | _ => "bad-op"
 
-def stepA (maxLen : Nat) (toks : List String) : String :=
+def stepA (arena : Bool) (maxLen : Nat) (toks : List String) : String :=
   match parseTree toks with
   | some (.bundle tt cap kids, srcs) =>
     match srcs.mapM (fun (s : String) => if s.startsWith "m" then ofHex (s.drop 1).toString else none) with
     | none => "bad-op"
-    | some msgs => render do
+    | some msgs => renderIn arena do
       let (buf0, ret0) ← build (.bundle tt cap kids)
       let mut buf := buf0
       let mut len := ret0
@@ -161,7 +173,8 @@ def stepA (maxLen : Nat) (toks : List String) : String :=
         rets := rets ++ [toString len]
       let head0 := s!"r={ret0} a={if rets.isEmpty then "-" else ",".intercalate rets}"
       if len > cap then return head0 ++ " ret-exceeds-len"
-      let head := head0 ++ s!" b={if len = 0 then hexz buf else toHex (buf.take len)}"
+      if len = 0 then return head0
+      let head := head0 ++ s!" b={toHex (buf.take len)}"
       if len ≥ 16 then
         let r ← readers buf len
         return head ++ r
@@ -177,10 +190,15 @@ def step (line : String) : String :=
       | some b => s!"p={if b then 1 else 0}"
       | none => crash
     | none => "bad-op"
-  | "C" :: toks => stepC toks
+  | "C" :: toks => stepC false toks
+  | "Cr" :: toks => stepC true toks
   | "A" :: ml :: toks =>
     match ml.toNat? with
-    | some maxLen => stepA maxLen toks
+    | some maxLen => stepA false maxLen toks
+    | none => "bad-op"
+  | "Ar" :: ml :: toks =>
+    match ml.toNat? with
+    | some maxLen => stepA true maxLen toks
     | none => "bad-op"
   | _ => "bad-op"
 
